@@ -39,16 +39,16 @@ macro_rules! ctr_harness {
             let c = $cipher::new(nd::any());
             let iv: [u8; $b] = nd::any();
             let data: [u8; $len] = nd::any();
-            let p0: u8 = nd::any();
+            let p0: u8 = nd::pick(1);
             nd::assume(p0 <= 2);
-            let off: u8 = nd::any();
+            let off: u8 = nd::pick(($b - 1) as u8);
             nd::assume((off as usize) < $b);
             let mut s = <$ty>::from_core(InnerIvInit::inner_iv_init(&c, &iv.into()));
             let start: u64 = p0 as u64 * $b + off as u64;
             s.seek(start);
             assert!(s.current_pos::<u64>() == start);
             let mut buf = data;
-            let b2b: bool = nd::any();
+            let b2b: bool = nd::pick(1) & 1 == 1;
             if b2b {
                 let mut out = [0u8; $len];
                 s.apply_keystream_b2b(&data[..$split], &mut out[..$split]).unwrap();
@@ -115,9 +115,9 @@ macro_rules! belt_harness {
             let c = $cipher::new(nd::any());
             let iv: [u8; 16] = nd::any();
             let data: [u8; $len] = nd::any();
-            let p0: u8 = nd::any();
+            let p0: u8 = nd::pick(1);
             nd::assume(p0 <= 2);
-            let off: u8 = nd::any();
+            let off: u8 = nd::pick(15);
             nd::assume(off < 16);
             let mut s = belt_ctr::BeltCtr::<&$cipher>::from_core(InnerIvInit::inner_iv_init(&c, &iv.into()));
             assert!(c.xs.get()[0] == iv);
